@@ -66,8 +66,8 @@ def rfilter(tok):
 
 def stream_digit(views, name, kind, j):
     """last digit of the exported stream name: v<g> of the j-th matching view, i<name> under the default view"""
-    idx = [g for g, (n, t) in enumerate(views) if n == name and t == kind[0]]
-    return idx[j] % 10 if j < len(idx) else name % 10
+    idx = [g for g, (n, t) in enumerate(views) if str(n) == name and t == kind[0]]
+    return idx[j] % 10 if j < len(idx) else int(name.split(':')[-1]) % 10
 
 
 def filtered(flt, digit, want):
@@ -117,6 +117,10 @@ def corpus():
     c(line(['D~0', 'C'], [], ['create 0 cl', 'create 1 cl', 'create 2 cl', 'add 0 1 5', 'add 1 1 6', 'add 2 1 7', 'add 2 2 8', 'collect 0', 'collect 1', 'add 2 2 1', 'add 2 4 1', 'collect 0', 'collect 1']), 'metric-filter')
     c(line(['C~1', 'D~2', 'D'], [(0, 'c'), (0, 'c'), (1, 'u')], ['create 0 cl', 'create 1 ud', 'add 0 0 5', 'add 0 3 1', 'add 1 2 -6', 'collect 0', 'collect 1', 'collect 2', 'add 0 0 1', 'add 1 1 1', 'collect 1', 'collect 0', 'collect 2']), 'metric-filter')
     c(line(['D~2'], [], ['create 0 cl', 'add 0 1 5', 'collect 0', 'add 0 2 5', 'collect 0', 'add 0 2 1', 'collect 0']), 'metric-filter')
+    # two meters under one provider: equally named instruments are different instruments, the views select meter m only, every collection takes both
+    c(line(['D', 'C'], [(0, 'c'), (0, 'c')], ['create 0 cl', 'create 0 cl n', 'create 1 ud n', 'add 0 1 5', 'add 1 1 7', 'add 2 0 -2', 'collect 0', 'add 1 1 1', 'collect 1', 'create 0 cl n', 'add 3 1 100', 'collect 0', 'collect 1']), 'two-meters')
+    c(line(['P~1'], [], ['create 2 cl n', 'create 2 ul n', 'create 2 cl', 'add 0 2 5', 'add 1 2 6', 'add 2 2 7', 'collect 0', 'race 0 2 100 0 3', 'collect 0']), 'two-meters')
+    c('met cfg D - ; create 0 cl m', 'malformed')
     # ForceFlush / Shutdown of the provider take nothing away; readers may go on collecting
     c(line(['D', 'C'], [(0, 'c'), (0, 'c'), (0, 'c')], ['create 0 cl', 'add 0 1 5', 'flush', 'collect 0', 'add 0 1 2', 'shutdown', 'add 0 2 1', 'collect 1', 'collect 0', 'shutdown', 'flush', 'collect 0']), 'flush-shutdown')
     # every instrument-creation form (name) / (name, description) / (name, description, unit), views with a description
@@ -152,6 +156,7 @@ def gen_history(rng, nops, shape, shape_race=False, widen=False):
     pcreate = rng.choice([0.02, 0.05, 0.15])
     prace = 0.03 if shape_race else 0.0
     pctl = 0.02 if widen else 0.0
+    two_meters = widen and rng.random() < 0.5      # some instruments live on a second meter of the provider
     for _ in range(nops):
         r = rng.random()
         if pctl and rng.random() < pctl:
@@ -163,7 +168,8 @@ def gen_history(rng, nops, shape, shape_race=False, widen=False):
         if not handles or r < pcreate:
             k = rng.choice(KINDS) if rng.random() < 0.6 or not handles else rng.choice(handles)[1]
             n = rng.randrange(names) if rng.random() < 0.6 or not handles else rng.choice(handles)[0]
-            ops.append(f'create {n} {k}')
+            on_n = two_meters and rng.random() < 0.4
+            ops.append(f'create {n} {k}' + (' n' if on_n else ''))
             handles.append((n, k))
         elif r < pcreate + pcollect:
             ops.append(f'collect {rng.randrange(nr)}')
@@ -342,14 +348,14 @@ def oracle(case, out):
     readers = cfg[1].split(',')
     views = [] if cfg[2] == '-' else [(int(x.split(':')[0]), x.split(':')[1]) for x in cfg[2].split(',')]
     nr = len(readers)
-    handles = []                       # (name, kind)
+    handles = []                       # (name, kind); name = "3" on meter m, "n:3" on the second meter n (no view selects that meter)
     total = {}                         # (name, kind) -> {a: running total}
     since = [dict() for _ in range(nr)]  # per reader: (name, kind) -> {a: sum since its last collection}
     last_end = [dict() for _ in range(nr)]  # per reader: label -> end stamp of the last MetricData
     ncollect = 0
 
     def nstreams(name, kind):
-        m = sum(1 for (n, t) in views if n == name and t == kind[0])
+        m = sum(1 for (n, t) in views if str(n) == name and t == kind[0])
         return m if m else 1
 
     mystamps = [set() for _ in range(nr)]   # per reader: the stamps of its own collections
@@ -363,7 +369,7 @@ def oracle(case, out):
             if ob != 'ok':
                 return (f'provider-{t[0]}-succeeds', ob)
         elif t[0] == 'create':
-            handles.append((int(t[1]), t[2]))
+            handles.append((('n:' if len(t) == 4 else '') + t[1], t[2]))
             if ob != f'h{len(handles) - 1}':
                 return ('create-returns-a-handle', ob)
         elif t[0] == 'add':
@@ -521,7 +527,7 @@ def bad_case(ops):
         handles = []
         for op in ops[1:]:
             t = op.split(' ')
-            if t[0] == 'create' and len(t) == 3:
+            if t[0] == 'create' and (len(t) == 3 or (len(t) == 4 and t[3] == 'n')):
                 if not t[1].isdigit() or int(t[1]) >= 8 or t[2] not in KINDS:
                     return True
                 handles.append(t[2])
